@@ -3,6 +3,7 @@ import WfModel.GenLifecycleShape
 import WfProofs.LifecycleCover
 import WfProofs.LifecycleRow
 import WfProofs.LifecycleReplay
+import WfProofs.LifecycleIdle
 /-!
 # C36 — idle runs are released after the idle timeout and reloaded on demand
 
@@ -227,6 +228,128 @@ theorem C36_no_release_while_sending (s : S) (a : Act) :
     cases hk : s.lock with
     | none => exact absurd hk hl
     | some _ => simp
+
+/-! ## every history (in-process stack) -/
+
+/-- **a released run is marked idle — in every reachable state**, not only right after the release step: whenever
+no control loop of the run is in memory, the handler row carries `idle_since`, and it is the time of the last idle
+announcement; the run is out of the active set.  (Nobody can clear `idle_since` of a released run without first
+reloading it: both clears sit in lock sections that have seen, or made, the run active.) -/
+theorem C36_released_run_marked_idle (tau : Nat) (acts : List Act) :
+    let s := run (init tau) acts
+    s.cur = none → ∃ t, s.idleSince = some t ∧ s.lastMark = some t ∧ t ≤ s.now ∧ s.active = false := by
+  intro s hc
+  have hinv : Inv s := Inv.run (init tau) acts (Inv.init tau)
+  have hid : IdleInv s := IdleInv.run acts (init tau) (IdleInv.init tau) (Inv.init tau)
+  have h1 := hid.relIdle hc
+  cases hi : s.idleSince with
+  | none => rw [hi] at h1; cases h1
+  | some t =>
+    have h2 := hinv.idleLe t hi
+    refine ⟨t, rfl, h2.2, h2.1, ?_⟩
+    have := hinv.act; rw [hc] at this; simpa using this
+
+/-- non-vacuity, and the state is really kept while other things happen: released at 200, time passes, a second
+(stale) release task runs through its section, a sender has called and waits for the lock — still marked idle -/
+example :
+    let s := run (init 200) [.eDone, .eMark, .eSpawn 0, .advance 200, .tAcq 0, .tQuery 0, .tDecide 0, .advance 500, .sCall 3]
+    s.cur = none ∧ s.idleSince = some 0 ∧ s.lastMark = some 0 ∧ s.active = false := by decide
+
+/-- **releases and reloads, counted over the whole history**: every release aborted exactly one loop, and the number
+of loops ever started is the number of releases plus one while the run is in memory, and exactly the number of
+releases while it is released — each release is answered by at most one reload, no reload happens without a
+release, and a loaded run has been reloaded exactly as often as it has been released. -/
+theorem C36_reloads_match_releases (tau : Nat) (acts : List Act) :
+    let s := run (init tau) acts
+    s.aborted = s.releases.length ∧ s.started = s.releases.length + (if s.cur.isSome then 1 else 0) := by
+  intro s
+  have hinv : Inv s := Inv.run (init tau) acts (Inv.init tau)
+  have hid : IdleInv s := IdleInv.run acts (init tau) (IdleInv.init tau) (Inv.init tau)
+  exact ⟨hid.relCount, by rw [← hid.relCount]; exact hinv.count⟩
+
+/-- non-vacuity: two release / reload cycles -/
+example :
+    let s := run (init 200) [.eDone, .eMark, .eSpawn 0, .advance 200, .tAcq 0, .tQuery 0, .tDecide 0,
+      .sCall 1, .sAcq 1, .sQuery 1, .sLog 1, .sStart 1, .sRClear 1, .sDeliver 1, .ePull, .eReduce, .eDone, .eMark, .eSpawn 1,
+      .advance 200, .tAcq 1, .tQuery 1, .tDecide 1,
+      .sCall 2, .sAcq 2, .sQuery 2, .sLog 2, .sStart 2, .sRClear 2, .sDeliver 2]
+    s.releases = [(200, 0), (400, 200)] ∧ s.started = 3 ∧ s.aborted = 2 ∧ s.cur.isSome = true := by decide
+
+/-- **"continues from where it stopped", for every interleaving** (the store calls of the reload may suspend, other
+senders and release tasks queue, the engine of the new loop runs as soon as it is started): in every reachable state
+and for every action, an action that starts a control loop registers a loop whose state is rebuilt from the *entire*
+tick log as it is at that instant (the list the sender read earlier is still the whole log: nothing is persisted
+while the run is out of memory), numbered by the loops started before it; the rebuilt-from list of the registered
+loop is always a prefix of the log (what the incarnation persists is appended to what it was rebuilt from) and its
+number is `started - 1`; and the log itself only ever grows — no release, reload or send drops a persisted tick. -/
+theorem C36_reload_from_all_persisted (tau : Nat) (acts : List Act) (a : Act) :
+    let s := run (init tau) acts
+    ((stepD s a).started ≠ s.started →
+        (stepD s a).cur = some { inc := s.started, start := s.log } ∧ (stepD s a).started = s.started + 1 ∧
+        (stepD s a).log = s.log ∧ (stepD s a).active = true) ∧
+    (∀ l, s.cur = some l → l.start <+: s.log ∧ l.inc + 1 = s.started) ∧
+    s.log <+: (stepD s a).log ∧ (∀ acts', s.log <+: (run s acts').log) := by
+  intro s
+  have hid : IdleInv s := IdleInv.run acts (init tau) (IdleInv.init tau) (Inv.init tau)
+  refine ⟨?_, hid.startPre, log_prefix_step s a, fun acts' => log_prefix_run acts' s⟩
+  intro h
+  rcases stepD_eq s a with e | e
+  · rw [e] at h; exact absurd rfl h
+  · generalize stepD s a = s' at h e
+    cases a
+    all_goals destruct_step e
+    all_goals (try (exact absurd rfl h))
+    all_goals (try (simp only [release_started] at h; exact absurd rfl h))
+    all_goals (rename_i x i' snap heq hi _ _; have := hid.snap _ _ heq; subst this; exact ⟨rfl, rfl, rfl, rfl⟩)
+
+/-- non-vacuity: the reloading sender is suspended after it has read the log (`sLog`) while a second sender queues
+and time passes; the loop it then starts is incarnation 1, rebuilt from the whole log `[1]` -/
+example :
+    let s := run (init 200) [.eDone, .eMark, .eSpawn 0, .sCall 1, .sAcq 1, .sClear 1, .sDeliver 1, .ePull, .eReduce, .eDone,
+      .eMark, .eSpawn 1, .advance 200, .tAcq 0, .tQuery 0, .tDecide 0, .advance 5, .tAcq 1, .tQuery 1, .tDecide 1,
+      .sCall 2, .sAcq 2, .sQuery 2, .sLog 2, .sCall 3, .advance 7]
+    s.log = [1] ∧ s.cur = none ∧ (stepD s (.sStart 2)).started ≠ s.started ∧
+      (stepD s (.sStart 2)).cur = some { inc := 1, start := [1] } := by decide
+
+/-- **release, as a statement about whole histories** (liveness read as safety): in every reachable state in which
+the handler row says "idle since `t`", no lock section is open, the announcement is complete, and every deferred
+release task that is still asleep was armed for an earlier announcement (wakes before `t + idle_timeout`) — in
+particular when all release tasks have run — the run **is** out of memory.  So an idle run can stay in memory only
+as long as a release task that will act on this very `idle_since` is still to run; the asyncio scheduler running
+that task (its sleep is `idle_timeout`, `C36_source_shape`) is the only thing left to trust. -/
+theorem C36_release_when_timers_quiescent (tau : Nat) (acts : List Act) :
+    let s := run (init tau) acts
+    ∀ t, s.idleSince = some t → s.lock = none → s.marking = false →
+      (∀ j due, s.timers j = .sleeping due → due < t + tau) → s.cur = none ∧ s.active = false := by
+  intro s t hi hl hm hq
+  have hinv : Inv s := Inv.run (init tau) acts (Inv.init tau)
+  have hcov : CoverInv s := CoverInv.run acts (init tau) (CoverInv.init tau) (Inv.init tau)
+  have htau : s.tau = tau := run_tau (init tau) acts
+  have hnone : s.cur = none := by
+    cases hc : s.cur with
+    | none => rfl
+    | some l =>
+      exfalso
+      rcases hcov.cov t hi (by simp [hc]) with c | ⟨j, due, c1, c2⟩ | ⟨j, c1, _⟩ | ⟨j, c1, _⟩ | ⟨i, c⟩
+      · rw [hm] at c; cases c
+      · have := hq j due c1; rw [htau] at c2; omega
+      · rw [hl] at c1; cases c1
+      · rw [hl] at c1; cases c1
+      · rw [hl] at c; cases c
+  refine ⟨hnone, ?_⟩
+  have := hinv.act; rw [hnone] at this; simpa using this
+
+/-- non-vacuity: two idle periods inside one `idle_timeout`; the first task (armed for the announcement at 0) has
+run and returned, the second (armed for the announcement at 120) has run: released; and before the second has run
+the hypothesis fails exactly because that task is still asleep until 320 = 120 + 200 -/
+example :
+    let pre := [Act.eDone, .eMark, .eSpawn 0, .advance 50, .sCall 1, .sAcq 1, .sClear 1, .sDeliver 1,
+      .ePull, .eReduce, .advance 70, .eDone, .eMark, .eSpawn 1, .advance 80, .tAcq 0, .tQuery 0, .tDecide 0, .advance 120]
+    let s0 := run (init 200) pre
+    let s := run (init 200) (pre ++ [.tAcq 1, .tQuery 1, .tDecide 1])
+    (s0.idleSince = some 120 ∧ s0.cur.isSome = true ∧ s0.timers 1 = .sleeping 320 ∧ s0.timers 0 = .done) ∧
+    (s.idleSince = some 120 ∧ s.lock = none ∧ s.marking = false ∧ s.timers 0 = .done ∧ s.timers 1 = .done ∧ s.cur = none) := by
+  decide
 
 /-! ## DBOS stack -/
 
